@@ -45,6 +45,9 @@ struct Resolver {
     long_names: BTreeMap<Id, Id>,
     /// The substance that an element symbol like `Na` stands for.
     symbols: BTreeMap<String, Id>,
+    /// The properties of the substance that is being visited which have
+    /// been seen so far. Later properties refer to them by name.
+    locals: BTreeSet<String>,
     sorted: Vec<Id>,
     unmarked: BTreeSet<Id>,
     temp_marks: BTreeSet<Id>,
@@ -128,6 +131,9 @@ impl Resolver {
 
     fn eval(&mut self, expr: &Expr, context: Namespace) {
         match *expr {
+            // An earlier property of the same substance, which the
+            // evaluator finds before it looks at the definitions.
+            Expr::Unit { ref name } if self.locals.contains(name) => (),
             Expr::Unit { ref name } => {
                 let name = self.intern(name);
                 if !self.lookup(&name, context) {
@@ -177,6 +183,9 @@ impl Resolver {
         if self.unmarked.get(id).is_some() {
             self.temp_marks.insert(id.clone());
             if let Some(v) = self.input.get(id).cloned() {
+                // The properties seen so far are names within one
+                // substance only, not within what it refers to.
+                let outer = std::mem::take(&mut self.locals);
                 match *v {
                     Def::Prefix { ref expr, .. }
                     | Def::Unit { ref expr }
@@ -185,10 +194,12 @@ impl Resolver {
                         for prop in properties {
                             self.eval(&prop.input, id.namespace);
                             self.eval(&prop.output, id.namespace);
+                            self.locals.insert(prop.name.clone());
                         }
                     }
                     _ => (),
                 }
+                self.locals = outer;
             }
             self.unmarked.remove(id);
             self.temp_marks.remove(id);
@@ -403,6 +414,7 @@ pub(crate) fn load_defs(ctx: &mut Context, defs: Defs) -> Vec<String> {
         input: BTreeMap::new(),
         long_names: BTreeMap::new(),
         symbols: BTreeMap::new(),
+        locals: BTreeSet::new(),
         sorted: vec![],
         unmarked: BTreeSet::new(),
         temp_marks: BTreeSet::new(),
